@@ -220,10 +220,15 @@ func checkC11(c c11Case, rec *Rec) *Violation {
 				}
 			}
 		}
-		// engines over this backing
-		ne := urlfilter.NewNetworkEngine(st)
-		de := urlfilter.NewDNSEngine(st)
-		ce := urlfilter.NewCosmeticEngine(st)
+		// engines over this backing, built on a storage nothing has been retrieved from yet (as an application does)
+		est, ecleanup, eerr := c11Storage(c.Lists, file)
+		if eerr != nil {
+			cleanup()
+			return viol(id, "C11:harness", "%s storage: %v", name, eerr)
+		}
+		ne := urlfilter.NewNetworkEngine(est)
+		de := urlfilter.NewDNSEngine(est)
+		ce := urlfilter.NewCosmeticEngine(est)
 		var sb strings.Builder
 		for _, q := range c.Reqs {
 			if q.Host {
@@ -242,6 +247,7 @@ func checkC11(c c11Case, rec *Rec) *Violation {
 			}
 		}
 		answers[bi] = sb.String()
+		ecleanup()
 		cleanup()
 	}
 	if answers[0] != answers[1] {
@@ -395,7 +401,7 @@ var c11LinePool = []string{
 
 func c11LongLine(t *rapid.T) string {
 	n := pick(t, "longlen", []int{4094, 4095, 4096, 4097, 8191, 8192, 8193, 9000})
-	if rare(t, "beyond-64KiB", 12) {
+	if rare(t, "beyond-64KiB", 60) {
 		n = pick(t, "hugelen", []int{65535, 65536, 66000})
 	}
 	switch rapid.IntRange(0, 2).Draw(t, "longkind") {
@@ -418,7 +424,7 @@ func genC11(t *rapid.T) c11Case {
 			buf.WriteString(pick(t, "bom-first-line", []string{"||bom8.example^", "example.org", "0.0.0.0 a.com", "! comment", "##.x"}))
 			buf.WriteString("\n")
 		}
-		if chance(t, "aligned-lines", 10) {
+		if rare(t, "aligned-lines", 6) {
 			// lines of exactly 32 bytes: rules start at every multiple of the 4 KiB read buffer
 			n := rapid.IntRange(130, 400).Draw(t, "aligned-n")
 			for j := 0; j < n; j++ {
@@ -455,6 +461,16 @@ func genC11(t *rapid.T) c11Case {
 			buf.WriteString(pick(t, "two-bytes", []string{"cn", "io", "ru", "ab"}))
 		}
 		c.Lists = append(c.Lists, c11List{ID: ids[i], Content: buf.Bytes(), IgnoreCosmetic: chance(t, "ignore-cosmetic", 3)})
+	}
+	for _, l := range c.Lists {
+		if bytes.HasPrefix(l.Content, []byte("||h0000.example^$ctag=t0000")) {
+			// the family of 32-byte lines: rules from the first block, around the block boundary and further on
+			for _, n := range []int{0, 100, 127, 128, 129, rapid.IntRange(0, 129).Draw(t, "aligned-q")} {
+				c.Reqs = append(c.Reqs, Q{URL: fmt.Sprintf("http://h%04d.example/", n), Typ: "script", Tags: []string{fmt.Sprintf("t%04d", n)}},
+					Q{Host: true, Hostname: fmt.Sprintf("h%04d.example", n), Tags: []string{fmt.Sprintf("t%04d", n)}})
+			}
+			break
+		}
 	}
 	for i := rapid.IntRange(0, 4).Draw(t, "nreq"); i > 0; i-- {
 		if chance(t, "host-req", 2) {
